@@ -575,6 +575,15 @@ fn live(ctx: &mut Ctx) {
     // consecutive rounds in which a listener of that kind reported nothing although the witness saw the other peer's
     // announcements on the wire at least twice
     let mut silent_streak: HashMap<&'static str, (u64, Vec<u64>)> = HashMap::new();
+    // one round in three runs over IPv6 (NetworkScope::V6, group ff02::fb) where the host has IPv6 multicast; such rounds have no
+    // witness socket, so they can only report wrong content, never silence, and an incomplete one is a note
+    let v6_ok = std::env::var_os("VERIF_C15_NO_V6").is_none() && monitor::guard(|| {
+        sync_discovery::ServiceDiscovery::new_with_scope(InstanceInformation::new("probe".into()).with_port(1), &format!("_l6p{}._tcp.local", pid), 1, None, simple_mdns::NetworkScope::V6)
+            .map(|mut s| s.remove_service_from_discovery()).is_ok()
+    }).unwrap_or(false);
+    if !v6_ok {
+        ctx.notes.push("live discovery: no IPv6 multicast on this host, all rounds run over IPv4".into());
+    }
     for k in 0..rounds {
         if ctx.time_up() {
             break;
@@ -585,16 +594,19 @@ fn live(ctx: &mut Ctx) {
         let d1 = gen_desc(&mut r, "one");
         let d2 = gen_desc(&mut r, "two");
         let tokio_side = k % 2 == 1;
+        let v6 = v6_ok && k % 6 >= 4;
+        let scope = if v6 { simple_mdns::NetworkScope::V6 } else { simple_mdns::NetworkScope::V4 };
+        ctx.count(if v6 { "live_rounds_over_ipv6" } else { "live_rounds_over_ipv4" });
         ctx.case(true, fnv(format!("live{:?}{:?}{}", d1, d2, tokio_side).as_bytes()));
         let case = || json!({"family": "live", "idx": k, "service": svc, "first": format!("{:?}", d1), "second": format!("{:?}", d2), "second_is_tokio": tokio_side});
         let started = monitor::guard(|| {
-            let s1 = sync_discovery::ServiceDiscovery::new(d1.info(1), &svc, 60).map_err(|e| e.to_string())?;
+            let s1 = sync_discovery::ServiceDiscovery::new_with_scope(d1.info(1), &svc, 60, None, scope).map_err(|e| e.to_string())?;
             std::thread::sleep(std::time::Duration::from_millis(50));
             let s2 = if tokio_side {
                 let _g = rt.enter();
-                Err(async_discovery::ServiceDiscovery::new(d2.info(2), &svc, 60).map_err(|e| e.to_string())?)
+                Err(async_discovery::ServiceDiscovery::new_with_scope(d2.info(2), &svc, 60, None, scope).map_err(|e| e.to_string())?)
             } else {
-                Ok(sync_discovery::ServiceDiscovery::new(d2.info(2), &svc, 60).map_err(|e| e.to_string())?)
+                Ok(sync_discovery::ServiceDiscovery::new_with_scope(d2.info(2), &svc, 60, None, scope).map_err(|e| e.to_string())?)
             };
             Ok::<_, String>((s1, s2))
         });
@@ -670,6 +682,9 @@ fn live(ctx: &mut Ctx) {
         ];
         let mut silent_violation = false;
         for (kind, reported_nothing, witnessed) in kinds {
+            if v6 {
+                break;
+            }
             let e = silent_streak.entry(kind).or_insert((0, Vec::new()));
             if !reported_nothing {
                 // this listener demonstrably ingested a response
@@ -701,6 +716,9 @@ fn live(ctx: &mut Ctx) {
             if wrong(&seen.0, &want1) || wrong(&seen.1, &want2) {
                 ctx.violation("discovered-equals-announced", "live-discovery-differs",
                     format!("two real ServiceDiscovery instances: first knows {:?} (wanted {:?}); second knows {:?} (wanted {:?})", seen.0, want1, seen.1, want2), case());
+            } else if v6 {
+                ctx.count("live_ipv6_rounds_incomplete_(no_wrong_content)");
+                ctx.notes.push(format!("live discovery round {} over IPv6: peers did not (fully) discover each other within the time allowed, nothing wrong was reported", k));
             } else {
                 ctx.count("live_rounds_incomplete_(no_wrong_content)");
                 ctx.inconclusive.push(format!("live discovery round {}: peers did not (fully) discover each other within the time allowed, nothing wrong was reported", k));
